@@ -66,12 +66,27 @@ PreStep ==
             /\ trace' = Append(trace, m) /\ UNCHANGED <<tl, ql, cl>>
     /\ steps' = steps + 1 /\ UNCHANGED <<phase, t12, q12, c12, how1>>
 
-(* Cache.requires_subquery, Join rules, for one side (isRight: the `node.child not in derived_from` case) *)
-RqJoin(c, t, how, isRight) ==
+(* is_null_strict (pipe/cache.py, repair of F08): an expression that is null in every row in which all columns it reads are null *)
+(* can be evaluated after an outer join; fill_null, is_null, coalesce, Kleene and / or, horizontal functions, is_in, literals and  *)
+(* case expressions cannot.  A column defined on this side is judged by its definition.                                             *)
+NotNullPropagating == {"fill_null", "is_null", "is_not_null", "coalesce", "and", "or", "hmax", "hmin", "hsum", "hany", "hall", "is_in"}
+RECURSIVE StrictE(_, _)
+StrictE(e, defs) ==
+    CASE e.k = "col" -> IF \E i \in DOMAIN defs : defs[i].id = e.id
+                        THEN StrictE(defs[CHOOSE i \in DOMAIN defs : defs[i].id = e.id].e, defs) ELSE TRUE
+      [] e.k = "cast" -> StrictE(e.e, defs)
+      [] e.k = "fn" -> e.op \notin NotNullPropagating /\ \E i \in DOMAIN e.a : StrictE(e.a[i], defs)
+      [] OTHER -> FALSE
+StrictCol(x, defs) == StrictE(Col(x), defs)
+
+(* Cache.requires_subquery, Join rules, for one side (isRight: the `node.child not in derived_from` case); q: that side's accumulator *)
+RqJoin(c, t, q, how, isRight) ==
     IF c.lim # 0 THEN "join after slice_head"
     ELSE IF c.grp # {} \/ c.summ THEN "join with a grouped table"
     ELSE IF (how = "full" \/ (isRight /\ how = "left")) /\ \E x \in VisSet(t) : t.fk[x] = "e" /\ IsConstCol(t, x)
          THEN "left / full join with a table containing a constant column"
+    ELSE IF (how = "full" \/ (isRight /\ how = "left")) /\ \E x \in VisSet(t) : ~StrictCol(x, q.defs)
+         THEN "left / full join with a table containing a column that is not null for null inputs"
     ELSE IF \E x \in VisSet(t) : t.fk[x] = "w" THEN "join with a table containing window function expression"
     ELSE IF c.filt /\ how = "full" THEN "full join with a filtered table"
     ELSE ""
@@ -92,8 +107,8 @@ JoinSeq(how) == Join(tl, tr, JoinOn, how, "_r")
 DecisionStep ==      \* conformance mode: every reachable pair of sides x join kind with the catalogue's decision
     /\ phase = "pre" /\ EmitAll
     /\ \E how \in {"inner", "left", "full"} :
-         LET needL == RqJoin(cl, tl, how, FALSE)
-             needR == RqJoin(cr, tr, how, TRUE)
+         LET needL == RqJoin(cl, tl, ql, how, FALSE)
+             needR == RqJoin(cr, tr, qr, how, TRUE)
          IN /\ JoinKeysVisible /\ JoinSeq(how).ok      \* a grouped side is a ValueError of the verb on every back end
             /\ PrintT(ToJson([left |-> SrcTables[LeftSrc].name, right |-> SrcTables[RightSrc].name, pre |-> trace, how |-> how,
                                needL |-> needL, needR |-> needR]))
@@ -123,8 +138,8 @@ UnionDecisionStep ==
 JoinStep ==
     /\ phase = "pre" /\ ~EmitAll
     /\ \E how \in {"inner", "left", "full"} :
-         LET needL == RqJoin(cl, tl, how, FALSE)
-             needR == RqJoin(cr, tr, how, TRUE)
+         LET needL == RqJoin(cl, tl, ql, how, FALSE)
+             needR == RqJoin(cr, tr, qr, how, TRUE)
              S == JoinSeq(how)
              F == JoinFlat(how)
          IN /\ S.ok /\ needL = "" /\ needR = ""
@@ -148,7 +163,7 @@ Join2Seq(how2) == Join(t12, Third, JoinOn2, how2, "_s")
 Join2Step ==
     /\ phase = "j1" /\ ThirdSrc # 0 /\ ByName(SrcTables[LeftSrc])["a"] \in VisSet(t12)
     /\ \E how2 \in {"inner", "left", "full"} :
-         LET need == RqJoin(c12, t12, how2, FALSE)
+         LET need == RqJoin(c12, t12, q12, how2, FALSE)
              S == Join2Seq(how2)
              F == Join2Flat(how2)
          IN /\ S.ok /\ need = ""
